@@ -341,10 +341,54 @@ def case_validation(case):
         return ('ok', np.asarray(getattr(model, which)).ravel()[0])
     zero = z3.FPVal(0.0, z3.Float64())
     one = z3.FPVal(1.0, z3.Float64())
+    logmap = name.startswith('L') and which.startswith('property_')
+    absmap = {}
+    if logmap:
+        # IEEE-754 exp/10** are not encodable: the backward map on doubles
+        # is an ABSTRACT function y = g(x) constrained only by facts that
+        # hold for every IEEE implementation: NaN -> NaN; the zero-
+        # conductivity end (-inf for conductivity maps, +inf for resistivity
+        # maps) -> +0; the other end -> +inf; finite x -> y >= 0, not NaN
+        # (y may underflow to 0 or overflow to inf).
+        MapCls = getattr(E.maps, 'Map'+name)
+        real_backward = MapCls.backward
+        lo_is_neg = 'Conductivity' in name
+
+        def g(v):
+            key = v.t.get_id()
+            if key not in absmap:
+                y = c.fresh('sigma', 'f64')
+                x = v.t
+                zero_end = z3.And(z3.fpIsInf(x), z3.fpIsNegative(x)
+                                  if lo_is_neg else z3.fpIsPositive(x))
+                inf_end = z3.And(z3.fpIsInf(x), z3.fpIsPositive(x)
+                                 if lo_is_neg else z3.fpIsNegative(x))
+                c.assume(B(z3.And(
+                    z3.fpIsNaN(x) == z3.fpIsNaN(y),
+                    z3.Implies(zero_end, z3.And(z3.fpIsZero(y),
+                                                z3.fpIsPositive(y))),
+                    z3.Implies(inf_end, z3.And(z3.fpIsInf(y),
+                                               z3.fpIsPositive(y))),
+                    z3.Implies(z3.Not(z3.fpIsNaN(x)),
+                               z3.fpGEQ(y, zero)))))
+                absmap[key] = (v, F64(y))
+                c.keep.append(v.t)
+            return absmap[key][1]
+
+        def abs_backward(self, mapped):
+            arr = np.asarray(mapped, dtype=object)
+            out = np.empty(arr.shape, dtype=object)
+            for idx in np.ndindex(*arr.shape):
+                out[idx] = g(arr[idx]) if isinstance(arr[idx], F64) \
+                    else real_backward(self, np.asarray(arr[idx],
+                                                        dtype=float))
+            return out.view(symx.SymArray)
 
     def good(v):
         """conductivity (or mu_r / eps_r) positive and finite."""
-        if which.startswith('property_') and name == 'Resistivity':
+        if logmap:
+            s = g(v).t
+        elif which.startswith('property_') and name == 'Resistivity':
             s = z3.fpDiv(z3.RNE(), one, v.t)
         else:
             s = v.t
@@ -354,6 +398,8 @@ def case_validation(case):
     bad = None
     n = dict(ok=0, init=0, set=0)
     t0 = time.time()
+    if logmap:
+        MapCls.backward = abs_backward
     try:
         for res, pc, tr in c.explore(path, budget_s=600):
             c.pc = pc
@@ -381,9 +427,21 @@ def case_validation(case):
     except Inconclusive as e:
         return [ob("exploration", 'unknown', group=grp, cls='FP',
                    note=str(e))]
+    finally:
+        if logmap:
+            MapCls.backward = real_backward
     if bad:
         why, v, m = bad
         vals = None
+        if m is not None and logmap and 'accepts' in why:
+            # prefer a witness at the infinite end (finite x with g(x) = 0
+            # is only an abstraction of underflow)
+            for pick in (v2, v1):
+                r2, m2 = c.check(z3.Not(z3.And(good(v1), good(v2))),
+                                 z3.fpIsInf(pick.t), label='witness')
+                if r2 == 'sat':
+                    m = m2
+                    break
         if m is not None:
             vals = [symx.f64_model_value(m, v1),
                     symx.f64_model_value(m, v2)]
@@ -558,13 +616,19 @@ def main(tier):
             jobs.append(('case_validation', (n, w)))
     for w in ('mu_r', 'epsilon_r'):
         jobs.append(('case_validation', ('Resistivity', w)))
+    for n in ('LgConductivity', 'LnConductivity', 'LgResistivity',
+              'LnResistivity'):
+        jobs.append(('case_validation', (n, 'property_x')))
+    jobs.append(('case_validation', ('LgResistivity', 'property_z')))
     obs = pmap(_dispatch, jobs)
     run.add(obs)
     run.bounds = dict(
         values="all real sigma > 0 / mapped x (no bound)",
         volume_model_shape=(1, 1, 2),
         validation="one symbolic IEEE-754 double at construction and one on "
-                   "assignment; maps Conductivity and Resistivity; "
+                   "assignment; maps Conductivity and Resistivity exactly "
+                   "(fpDiv), the four log maps with an abstract IEEE "
+                   "backward function (NaN/inf/zero ends, sign); "
                    "property_x/y/z, mu_r, epsilon_r")
     run.assumptions = [
         "exp, ln, log10, 10**x are uninterpreted functions constrained by: "
